@@ -100,9 +100,18 @@ def lex_jobs(rng, quick):
             add(dt, sign + b, "duration")
     for s in HEX:
         add("hexBinary", s, "hex")
+    # string-derived types with a whiteSpace facet, and base64Binary (single spaces between characters are part of its lexical space)
+    import base64 as _b64
+    for t in ("a", "a b", "a  b", "10\u00a0000", "a\u2003b", "\u00a0a\u00a0", "a\tb", "a\nb", "a\u0085b", "a\u2028b", "\u3000x\u3000", "a \u00a0 b", "", "x\u00a0", "a\rb"):
+        add("token", t, "token")
+        add("normalizedString", t, "token")
+    wrapped76 = _b64.encodebytes(bytes(range(70))).decode().strip().replace("\n", " ")
+    for t in ("AQID", "AQID BAUG", "A Q I D", "AQ==", "AQ =", "A Q = =", "AQI=", "AQ=", "A", "AQ-ID", "AQ_D", "AQID=", "=AQI", "AQ==AQID", "AR==", "AQJ=", "", "AQID  BAUG", wrapped76, wrapped76.replace(" ", ""),
+              "QUJD REVG R0hJ", "AQ I D BA UG"):
+        add("base64Binary", t, "base64")
     # datatypes the spec does not judge: only idempotence / value preservation of normalisation
-    for dt, forms in (("gYear", ["2020", "02020", "-0001", "20"]), ("gYearMonth", ["2020-01", "2020-13", "2020-1"]), ("base64Binary", ["AQID", "AQ==", "A", "AQ ID", ""]), ("anyURI", ["http://a/", " a ", ""]),
-                      ("string", ["a", " a  b ", ""]), ("normalizedString", ["a b", " a  b "]), ("token", ["a b", "a"]), ("language", ["en", "EN-us"]), ("dateTimeStamp", ["2020-01-01T00:00:00Z", "2020-01-01T00:00:00"])):
+    for dt, forms in (("gYear", ["2020", "02020", "-0001", "20"]), ("gYearMonth", ["2020-01", "2020-13", "2020-1"]), ("anyURI", ["http://a/", " a ", ""]),
+                      ("string", ["a", " a  b ", ""]), ("language", ["en", "EN-us"]), ("dateTimeStamp", ["2020-01-01T00:00:00Z", "2020-01-01T00:00:00"])):
         for s in forms:
             add(dt, s, "unjudged")
     return J
@@ -158,6 +167,9 @@ def py_jobs(rng, quick):
     for d in durs:
         if d[0] or d[1]:
             add("Duration", list(d))
+    # Durations without a year-month part: written as xsd:duration, read back as timedelta - an equal value all the same
+    for d in [(0, 0, 1, 0, 0), (0, 0, 0, 3600, 0), (0, 0, 0, 0, 0), (0, 0, 0, 1, 500000), (0, 0, 2, 30, 0), (0, 0, 0, 0, 1)] + [(0, 0, rng.randint(0, 400), rng.randint(0, 86399), rng.choice([0, rng.randint(0, 999999)])) for _ in range(n // 10)]:
+        add("Duration", list(d), "Duration-daytime")
     return J
 
 
